@@ -458,6 +458,16 @@ class PathSim:
             if op == "~" and is_const(v) and "iw" in n:
                 return C((~v[1]) & ((1 << n["iw"]) - 1))
             if op == "&":
+                # the address of a parameter does not depend on the value the loop havoc gave it
+                sn = n["sub"]
+                for _ in range(4):
+                    sn = self.F.deref(sn)
+                    if isinstance(sn, dict) and sn.get("k") == "w":
+                        sn = sn["sub"]
+                    else:
+                        break
+                if isinstance(sn, dict) and sn.get("k") == "ref" and sn.get("dk") == "parm" and isinstance(v, tuple) and v[:1] == ("phi",):
+                    return ("addr", ("p", sn["d"], sn["n"]))
                 return ("addr", v)
             if op == "*":
                 if isinstance(v, tuple) and v and v[0] == "addr":
